@@ -588,10 +588,16 @@ pub fn read_all_from<R: Read + io::Seek>(
 
 pub fn read_all(bytes: &[u8], key_indices: &[usize]) -> Result<BTreeMap<String, ReadFile>, String> {
     // one archive in three is read from a source that returns at most 7 bytes per read call, with 5-byte reads
-    if bytes.len() % 3 == 2 {
-        return read_all_from(CapRead { inner: Cursor::new(bytes), cap: 7 }, key_indices, 5);
+    // the source is handed over positioned at its end for odd lengths (the reader is documented to start from
+    // the beginning of the source whatever its position)
+    let mut cur = Cursor::new(bytes);
+    if bytes.len() % 2 == 1 {
+        cur.set_position(bytes.len() as u64);
     }
-    read_all_from(Cursor::new(bytes), key_indices, 4096)
+    if bytes.len() % 3 == 2 {
+        return read_all_from(CapRead { inner: cur, cap: 7 }, key_indices, 5);
+    }
+    read_all_from(cur, key_indices, 4096)
 }
 
 /// A reader (seekable if the inner one is) that returns at most `cap` bytes per read call.
